@@ -251,7 +251,7 @@ def check_refuse(repo: Repo, rep: Report, sums: List[OpSummary]):
         rep.bad("C03.refuse", load.qualname, "parse-bypasses-dispatch", "Pickled.load no longer builds opcodes through Opcode(info=...)", load.file, load.line)
 
 
-def check_body_chain(repo: Repo, rep: Report):
+def check_body_chain(repo: Repo, rep: Report, RULE: str = "C03.body-chain"):
     mb = repo.cls("fickling.fickle.ModuleBody")
     app = mb.method("append")
     if app is None:
@@ -264,15 +264,15 @@ def check_body_chain(repo: Repo, rep: Report):
         if node is not None and node.id in g.post_dominators().get(g.entry, set()):
             ok = True
     if ok:
-        rep.ok("C03.body-chain", app.qualname, "self._list.append(stmt) on every normal path (no filtering / de-duplication)", f"{app.file}:{app.line}")
+        rep.ok(RULE, app.qualname, "self._list.append(stmt) on every normal path (no filtering / de-duplication)", f"{app.file}:{app.line}")
     else:
-        rep.bad("C03.body-chain", app.qualname, "append-conditional", "ModuleBody.append does not append its statement on every normal path: an emitted import/call statement can be dropped", app.file, app.line)
+        rep.bad(RULE, app.qualname, "append-conditional", "ModuleBody.append does not append its statement on every normal path: an emitted import/call statement can be dropped", app.file, app.line)
     it = mb.method("__iter__")
     rets = [n.value for n in body_walk(it.node) if isinstance(n, ast.Return)] if it else []
     if len(rets) == 1 and isinstance(rets[0], ast.Call) and dotted(rets[0].func) == "iter" and dotted(rets[0].args[0]) == "self._list":
-        rep.ok("C03.body-chain", it.qualname, "iterates the whole list", f"{it.file}:{it.line}")
+        rep.ok(RULE, it.qualname, "iterates the whole list", f"{it.file}:{it.line}")
     else:
-        rep.bad("C03.body-chain", (it.qualname if it else mb.qualname + ".__iter__"), "iter-filtered", f"ModuleBody.__iter__ returns {[src(r) for r in rets]}, not iter(self._list)", mb.module.relpath, mb.node.lineno)
+        rep.bad(RULE, (it.qualname if it else mb.qualname + ".__iter__"), "iter-filtered", f"ModuleBody.__iter__ returns {[src(r) for r in rets]}, not iter(self._list)", mb.module.relpath, mb.node.lineno)
     other_writers = []
     for name, fs in mb.methods.items():
         for f in fs:
@@ -286,16 +286,16 @@ def check_body_chain(repo: Repo, rep: Report):
                 if isinstance(n, ast.Call) and isinstance(n.func, ast.Attribute) and dotted(n.func.value) == "self._list" and n.func.attr in ("pop", "remove", "clear", "insert", "__delitem__", "__setitem__", "sort", "reverse"):
                     other_writers.append((f, n))
     for f, n in other_writers:
-        rep.bad("C03.body-chain", f.qualname, "body-rewritten", f"`{src(n)}` removes or rewrites statements already appended to the module body", f.file, n.lineno)
+        rep.bad(RULE, f.qualname, "body-rewritten", f"`{src(n)}` removes or rewrites statements already appended to the module body", f.file, n.lineno)
     # Interpreter.step builds the Module from the whole body
     step = repo.cls("fickling.fickle.Interpreter").method("step")
     mods = [n for n in body_walk(step.node) if isinstance(n, ast.Call) and dotted(n.func) == "ast.Module"]
     if len(mods) == 1 and mods[0].args and isinstance(mods[0].args[0], ast.Call) and dotted(mods[0].args[0].func) == "list" and dotted(mods[0].args[0].args[0]) == "self.module_body":
-        rep.ok("C03.body-chain", step.qualname, "ast.Module(list(self.module_body)): every appended statement is in the program", f"{step.file}:{mods[0].lineno}")
+        rep.ok(RULE, step.qualname, "ast.Module(list(self.module_body)): every appended statement is in the program", f"{step.file}:{mods[0].lineno}")
     elif len(mods) == 1 and mods[0].args and any(dotted(x) == "self.module_body" for x in ast.walk(mods[0].args[0])) and not any(isinstance(x, (ast.comprehension, ast.Subscript)) for x in ast.walk(mods[0].args[0])):
-        rep.ok("C03.body-chain", step.qualname, f"ast.Module({src(mods[0].args[0])})", f"{step.file}:{mods[0].lineno}")
+        rep.ok(RULE, step.qualname, f"ast.Module({src(mods[0].args[0])})", f"{step.file}:{mods[0].lineno}")
     else:
-        rep.bad("C03.body-chain", step.qualname, "module-filtered", "the final ast.Module is not built from the whole module body", step.file, step.line)
+        rep.bad(RULE, step.qualname, "module-filtered", "the final ast.Module is not built from the whole module body", step.file, step.line)
     # a fresh interpreter per decompilation: no Interpreter object stored in a long-lived attribute
     stored = []
     for f in repo.functions.values():
@@ -315,15 +315,15 @@ def check_body_chain(repo: Repo, rep: Report):
                     if isinstance(t, (ast.Attribute, ast.Subscript)) and not (f.cls is not None and f.cls.name == "Trace"):
                         stored.append((f, n))
     for f, n in stored:
-        rep.bad("C03.body-chain", f.qualname, "interpreter-cached", f"`{src(n)}` keeps an Interpreter beyond the call: a run that raised on a refused opcode can later be resumed past it and decompile 'successfully' with the operation left out", f.file, n.lineno)
+        rep.bad(RULE, f.qualname, "interpreter-cached", f"`{src(n)}` keeps an Interpreter beyond the call: a run that raised on a refused opcode can later be resumed past it and decompile 'successfully' with the operation left out", f.file, n.lineno)
     astp = repo.cls("fickling.fickle.Pickled").method("ast", "property")
     interp = repo.func("fickling.fickle.Interpreter.interpret")
     fresh = any(isinstance(n, ast.Call) and dotted(n.func) == "Interpreter" for n in body_walk(interp.node))
     uses = any(isinstance(n, ast.Call) and dotted(n.func) in ("Interpreter.interpret", "Interpreter") for n in body_walk(astp.node))
     if fresh and uses and not stored:
-        rep.ok("C03.body-chain", astp.qualname, "decompilation constructs a fresh Interpreter each time it computes", f"{astp.file}:{astp.line}")
+        rep.ok(RULE, astp.qualname, "decompilation constructs a fresh Interpreter each time it computes", f"{astp.file}:{astp.line}")
     elif not stored:
-        rep.bad("C03.body-chain", astp.qualname, "not-fresh-interpreter", "Pickled.ast does not compute through a freshly constructed Interpreter", astp.file, astp.line)
+        rep.bad(RULE, astp.qualname, "not-fresh-interpreter", "Pickled.ast does not compute through a freshly constructed Interpreter", astp.file, astp.line)
 
 
 def run(rep: Report, tier: str):
